@@ -38,6 +38,10 @@ CHECKS = {
    tech='differential symbolic execution: the crate MIR against a reference Zinc reader/writer written from the specification (/verif/spec/zinc.py) on the same symbolic values; z3 decides whether the denoted values can differ; witnesses replayed natively',
    text='Writer direction: for every well-formed catalogue shape (symbolic leaves) the text produced by the real encoder is read by the reference reader, which must accept it and obtain the original value. Reader direction: the reference writer spells the same values with every legal spelling choice as a fork (short escape vs \\uXXXX in lower/upper hex vs raw, digit separator, exponent form, unit name vs symbol, list spacing and trailing comma, dict separator, explicit :M, Z vs Z UTC, LF vs CRLF, named IANA zones with fractional offsets) and the real decoder must return the denoted value (instants compared for named zones).',
    note='Bounds as C01 (strings <= 3 code points, collections <= 2, nesting <= 2). The reference implementation is part of the trusted base (written from the Zinc chapter; ambiguities - Uri backslash, XStr type C - are outside the oracle). IANA zone rules: only the instant and the zone id are compared for named zones.'),
+ 'C11': dict(engine=M, cat='model_checking', design='7 (C11), 4',
+   tech='three-stage symbolic execution of the crate MIR (decode symbolic text, encode the decoded value, decode again; z3 decides whether the two values can differ), reader-contract observation on every path, and byte positions of the lazy row iterator; witnesses replayed natively incl. through a chunking/interrupting reader',
+   text='(a) For every byte string of length <= 3/4 and 26 skeletons with 2-3 symbolic bytes that the real decoder accepts, the decoded value (symbolic leaves) is re-encoded and decoded again from MIR; the solver is asked for bytes where the second value differs or the re-encoded text is rejected. (b) On every explored path the reader model records the calls made on it: only read_exact with a 1-byte buffer may occur (then chunk sizes and Interrupted are invisible by read_exact\'s contract); each accepted witness is additionally decoded natively through a reader that splits reads and returns Interrupted. (c) parse_grid_iterator is driven row by row over grids with symbolic cells; the bytes consumed when a row is handed out must not exceed the end of that row plus the next token plus one byte (native positions must match).',
+   note='Bounds as C03. Hayson re-encode stability is not part of this check. Known finding (open): a missing cell in a one-column grid is re-encoded as an empty line. read_exact contract trusted (std).'),
 }
 NA = {
  'C14': 'quantifies over thread interleavings on dashmap\'s sharded locks: Kani has no thread model, mirsym is sequential and dashmap is outside the MIR dump; no solver-based engine on this image reaches it (DESIGN.md section 8)',
